@@ -42,7 +42,8 @@ EXPLANATION = (
 )
 # obligations added during the build phase (seeding rounds, twins, mutation analysis)
 ADDED_IN_BUILD = ' Also: NONEMPTY covers the candidate sets of the dynamic programmes (C02.b / C03.c BELLMAN candidates re-run: the newest admissible start is always among them, so argmin / argmax never see an empty set for max_segment_length == min_segment_length). Violations of the seeded / circular drivers\' other rules are not repeated under C14 (only NONEMPTY and undecided obligations are shared). (a) every-path: boolean hyper-parameters are undecided in the constructor scenarios and each domain check must be on every constructing path; unfitted-scorer: the numeric domains are enforced with an arbitrary unfitted user scorer (min_size None) too. (e) TERMINATION (F-30): the greedy selections\' zeroing obligations.'
-EXPLANATION = EXPLANATION + ADDED_IN_BUILD
+ADDED_IN_ROUND_9 = ' Round 9: NONEMPTY tune-operand - with threshold_scale=None the operand of the tuning quantile is a complete score output of the driver or a part of it whose length is at least 1 for every admissible data length (moving window: n >= 2*bandwidth, bandwidth >= 1); np.quantile of an empty array raises IndexError in fit.'
+EXPLANATION = EXPLANATION + ADDED_IN_BUILD + ADDED_IN_ROUND_9
 
 ASSUMPTIONS = [
     "Python's ast module and evaluation-order/argument-binding semantics as implemented in skverif/symex.py",
